@@ -101,7 +101,7 @@ def run_coqc(path, timeout=900):
         return 124, '', 'timeout'
 
 
-def eval_shards(workdir, header, runner, triples, shard=400, jobs=16, timeout=900, tag='cases'):
+def eval_shards(workdir, header, runner, triples, shard=400, jobs=16, timeout=900, tag='cases', ctype=None):
     """triples: list of (id:int, coq_input:str, coq_output:str).
     Each shard file: header; Definition cases := [...]; Eval vm_compute in (runner cases).
     Returns (n_evaluated, bad_ids, errors)."""
@@ -112,7 +112,7 @@ def eval_shards(workdir, header, runner, triples, shard=400, jobs=16, timeout=90
         path = os.path.join(workdir, '%s_%d.v' % (tag, k // shard))
         with open(path, 'w') as f:
             f.write(header + '\nSet Printing Width 1000000.\nSet Printing Depth 1000000.\n')
-            f.write('Definition cases :=\n [ ')
+            f.write('Definition cases%s :=\n [ ' % ((' : list (N * (%s) * (%s))' % ctype) if ctype else ''))
             f.write('\n ; '.join('(%d%%N, %s, %s)' % t for t in chunk))
             f.write('\n ].\n')
             f.write('Eval vm_compute in (%s cases).\n' % runner)
